@@ -37,7 +37,7 @@ func (c *conn) handshakeAsClient() status.Status {
 	}
 
 	// Read/check protocol line
-	line, st := c.reader.readLine()
+	line, st := c.reader.readLine(len(ProtocolLine))
 	if !st.OK() {
 		return st
 	}
@@ -86,7 +86,7 @@ func (c *conn) handshakeAsServer() status.Status {
 	}
 
 	// Read/check protocol line
-	line, st := c.reader.readLine()
+	line, st := c.reader.readLine(len(ProtocolLine))
 	if !st.OK() {
 		return st
 	}
